@@ -816,7 +816,9 @@ bintFrPlacevS(Bool isNeg, Length placec, U16 *data)
 	BIntS *bint_data;  
 	int   newc, i;
 
-	if (placec & 1)
+	/* An even number of U16s packs into the same space in place;
+	 * an odd number needs room for one more U16. */
+	if (!(placec & 1))
 		bint_data = (BIntS*) data;
 	else
 		bint_data = (BIntS*) stoAlloc(OB_Other, sizeof(BIntS) * (placec + 1));
@@ -829,7 +831,7 @@ bintFrPlacevS(Bool isNeg, Length placec, U16 *data)
 	
 	bint = bintFrPlacev(isNeg, newc, bint_data);
 	
-	if (!(placec & 1))
+	if (placec & 1)
 		stoFree(bint_data);
 	return bint;
 }
